@@ -37,6 +37,7 @@ const (
 
 var opNames = [...]string{"run", "lock", "wlock", "rlock", "wgwait", "recv", "send", "select", "sleep", "spin", "quiesce", "join"}
 
+//go:norace
 func (k OpKind) String() string { return opNames[k] }
 
 // Mode tells a shim how to perform the real operation.
@@ -80,6 +81,7 @@ type Thread struct {
 	forced  bool
 	joinT   *Thread
 	wake    chan struct{}
+	turn    int // spin baton (race builds)
 	exited  chan struct{}
 	spawns  int
 	fn      func()
@@ -110,6 +112,8 @@ type cycRead struct {
 }
 
 // Done reports whether the thread function has returned.
+//
+//go:norace
 func (t *Thread) Done() bool { return t.done }
 
 const maxForcedRounds = 2
@@ -183,6 +187,7 @@ type objState struct{ w, r uint64 }
 // global pseudo-objects for operations that conflict with each other without sharing an address
 var gYield, gMark, gCtx, gClock byte
 
+//go:norace
 func spread(h uint64) uint64 {
 	h ^= h >> 33
 	h *= 0xff51afd7ed558ccd
@@ -194,6 +199,8 @@ func spread(h uint64) uint64 {
 
 // ev records one event of thread t in the happens-before fingerprint: the event's hash is a function
 // of the thread's previous event and of the last conflicting event(s) on the object.
+//
+//go:norace
 func (s *sched) ev(t *Thread, kind uint64, obj unsafe.Pointer, write bool) {
 	old := t.h
 	e := mix(mix(old, kind+0x9e37), 0x51)
@@ -231,6 +238,8 @@ func (s *sched) ev(t *Thread, kind uint64, obj unsafe.Pointer, write bool) {
 }
 
 // evDep adds a read dependency on obj to the thread's last event.
+//
+//go:norace
 func (s *sched) evDep(t *Thread, obj unsafe.Pointer) { s.ev(t, 0x77, obj, false) }
 
 // SpinPark records that a thread fell back into its read-only cycle.
@@ -290,6 +299,8 @@ type Result struct {
 // It returns the number of decisions recorded when the thread parked again: decisions from there on
 // need not be expanded; decisions inside the excursion (the thread may be preempted between two of
 // its reads) still are.
+//
+//go:norace
 func (r *Result) NoopExcursion(i int) (bool, int) {
 	if i >= len(r.ChosenT) || r.ChosenT[i] < 0 {
 		return false, 0
@@ -313,9 +324,13 @@ func (r *Result) NoopExcursion(i int) (bool, int) {
 }
 
 // Active reports whether a scheduler is installed and not tearing down.
+//
+//go:norace
 func IsActive() bool { s := s_; return s != nil && !s.teardown }
 
 // Run executes body as the main thread of a fresh scheduled execution.
+//
+//go:norace
 func Run(cfg Config, body func()) *Result {
 	if s_ != nil {
 		panic("vrt: nested Run")
@@ -346,11 +361,11 @@ func Run(cfg Config, body func()) *Result {
 			m.done = true
 			s.doTeardown()
 		}()
-		<-m.wake
+		park(m)
 		m.goid = goid()
 		body()
 	}()
-	m.wake <- struct{}{}
+	unpark(m)
 	<-fin
 	s_ = nil
 	res.Choices, res.NCands, res.CurFirst, res.NodeHash = s.choices, s.ncands, s.curFirst, s.nodeHash
@@ -373,8 +388,11 @@ func Run(cfg Config, body func()) *Result {
 }
 
 // off: the execution is ending (teardown, or main is being unwound); operations must not schedule.
+//
+//go:norace
 func (s *sched) off() bool { return s.teardown || s.aborting }
 
+//go:norace
 func (s *sched) doTeardown() {
 	s.teardown = true
 	for i := 0; i < len(s.threads); i++ { // threads may still be appended by deferred functions? (no: Go is pass-through in teardown)
@@ -387,11 +405,12 @@ func (s *sched) doTeardown() {
 			continue
 		default:
 		}
-		t.wake <- struct{}{}
+		unpark(t)
 		<-t.exited
 	}
 }
 
+//go:norace
 func (s *sched) newThread(parent *Thread, fn func()) *Thread {
 	t := &Thread{idx: len(s.threads), wake: make(chan struct{}, 1), exited: make(chan struct{}), fn: fn}
 	if parent != nil {
@@ -424,6 +443,7 @@ func (s *sched) newThread(parent *Thread, fn func()) *Thread {
 	return t
 }
 
+//go:norace
 func nameLess(a, b []int) bool {
 	for i := 0; i < len(a) && i < len(b); i++ {
 		if a[i] != b[i] {
@@ -434,6 +454,8 @@ func nameLess(a, b []int) bool {
 }
 
 // Go starts fn as a registered thread (or as a plain goroutine when no scheduler is installed).
+//
+//go:norace
 func Go(fn func()) *Thread {
 	s := s_
 	if s == nil {
@@ -447,6 +469,8 @@ func Go(fn func()) *Thread {
 }
 
 // GoDaemon is Go for threads the harness does not expect to finish.
+//
+//go:norace
 func GoDaemon(fn func()) *Thread {
 	s := s_
 	if s == nil {
@@ -459,43 +483,53 @@ func GoDaemon(fn func()) *Thread {
 	return s.spawn(s.cur, fn, true)
 }
 
+//go:norace
 func (s *sched) spawn(parent *Thread, fn func(), daemon bool) *Thread {
 	t := s.newThread(parent, fn)
 	t.daemon = daemon
 	t.op = OpRun
 	t.label = "start"
 	s.epoch++
-	go func() {
-		defer close(t.exited)
-		<-t.wake
-		if s.teardown {
-			return
-		}
-		t.goid = goid()
-		defer func() {
-			if s.teardown {
-				// Goexit during teardown or a panic raised by a deferred function during teardown
-				recover()
-				return
-			}
-			if r := recover(); r != nil {
-				if _, ok := r.(abortSentinel); !ok && s.panicMsg == "" {
-					s.panicMsg = fmt.Sprintf("thread %s: %v\n%s", t.Name, r, stack())
-				}
-				t.done = true
-				s.abort("panic", nil)
-				return
-			}
-			t.done = true
-			s.epoch++
-			s.ev(t, 0x61, unsafe.Pointer(t), true)
-			s.schedule(nil)
-		}()
-		fn()
-	}()
+	go s.threadMain(t)
 	return t
 }
 
+// threadMain is the body of the goroutine of a registered thread.
+//
+//go:norace
+func (s *sched) threadMain(t *Thread) {
+	defer close(t.exited)
+	park(t)
+	if s.teardown {
+		return
+	}
+	t.goid = goid()
+	defer s.threadEnd(t)
+	t.fn()
+}
+
+//go:norace
+func (s *sched) threadEnd(t *Thread) {
+	if s.teardown {
+		// Goexit during teardown or a panic raised by a deferred function during teardown
+		recover()
+		return
+	}
+	if r := recover(); r != nil {
+		if _, ok := r.(abortSentinel); !ok && s.panicMsg == "" {
+			s.panicMsg = fmt.Sprintf("thread %s: %v\n%s", t.Name, r, stack())
+		}
+		t.done = true
+		s.abort("panic", nil)
+		return
+	}
+	t.done = true
+	s.epoch++
+	s.ev(t, 0x61, unsafe.Pointer(t), true)
+	s.schedule(nil)
+}
+
+//go:norace
 func stack() string {
 	buf := make([]byte, 16384)
 	n := runtime.Stack(buf, false)
@@ -503,6 +537,8 @@ func stack() string {
 }
 
 // abort ends the execution: main is unwound, the calling thread (if any, and not main) parks until teardown.
+//
+//go:norace
 func (s *sched) abort(why string, me *Thread) {
 	if s.abortWhy == "" {
 		s.abortWhy = why
@@ -513,14 +549,15 @@ func (s *sched) abort(why string, me *Thread) {
 	}
 	if !s.main.done {
 		s.cur = s.main
-		s.main.wake <- struct{}{}
+		unpark(s.main)
 	}
 	if me != nil {
-		<-me.wake
+		park(me)
 		s.afterWake(me)
 	}
 }
 
+//go:norace
 func (s *sched) afterWake(me *Thread) {
 	if s.teardown {
 		runtime.Goexit()
@@ -530,6 +567,7 @@ func (s *sched) afterWake(me *Thread) {
 	}
 }
 
+//go:norace
 func (s *sched) enabled(t *Thread) bool {
 	switch t.op {
 	case OpRun:
@@ -569,6 +607,7 @@ func (s *sched) enabled(t *Thread) bool {
 	return false
 }
 
+//go:norace
 func (s *sched) caseReady(c SelCase, t *Thread) bool {
 	if c.Send {
 		return s.sendReady(c.Ch, t)
@@ -577,6 +616,8 @@ func (s *sched) caseReady(c SelCase, t *Thread) bool {
 }
 
 // pick chooses the next thread to run; me is the thread taking the decision (nil on thread exit).
+//
+//go:norace
 func (s *sched) pick(me *Thread) *Thread {
 	for {
 		cands := s.cands[:0]
@@ -634,12 +675,14 @@ func (s *sched) pick(me *Thread) *Thread {
 	}
 }
 
+//go:norace
 func mix(h, v uint64) uint64 {
 	h ^= v
 	h *= 1099511628211
 	return h
 }
 
+//go:norace
 func hashName(n []int) uint64 {
 	h := uint64(7)
 	for _, x := range n {
@@ -648,6 +691,7 @@ func hashName(n []int) uint64 {
 	return h
 }
 
+//go:norace
 func (s *sched) decide(n int, curFirst bool, cands []*Thread) int {
 	if n == 1 || !s.exploring {
 		return 0
@@ -691,6 +735,8 @@ func (s *sched) decide(n int, curFirst bool, cands []*Thread) int {
 }
 
 // schedule takes a scheduling decision on behalf of me (nil: a thread that is exiting).
+//
+//go:norace
 func (s *sched) schedule(me *Thread) {
 	next := s.pick(me)
 	if next == nil {
@@ -705,14 +751,16 @@ func (s *sched) schedule(me *Thread) {
 		return
 	}
 	s.cur = next
-	next.wake <- struct{}{}
+	unpark(next)
 	if me != nil {
-		<-me.wake
+		park(me)
 		s.afterWake(me)
 	}
 }
 
 // point is the common path of every scheduled operation.
+//
+//go:norace
 func (s *sched) point(kind OpKind, obj unsafe.Pointer, write bool, spinnable bool, label string) *Thread {
 	t := s.cur
 	if s.goidChk {
@@ -771,6 +819,7 @@ func (s *sched) point(kind OpKind, obj unsafe.Pointer, write bool, spinnable boo
 	return t
 }
 
+//go:norace
 func (s *sched) granted(t *Thread, kind OpKind, write bool, label string) {
 	t.nops++
 	if write {
@@ -807,6 +856,7 @@ func (s *sched) granted(t *Thread, kind OpKind, write bool, label string) {
 	}
 }
 
+//go:norace
 func stackHash() uint64 {
 	var pcs [24]uintptr
 	n := runtime.Callers(3, pcs[:])
@@ -817,6 +867,7 @@ func stackHash() uint64 {
 	return h
 }
 
+//go:norace
 func goid() uint64 {
 	var buf [64]byte
 	n := runtime.Stack(buf[:], false)
@@ -837,6 +888,8 @@ func goid() uint64 {
 
 // Block is a scheduling point for an operation that may have to wait.  It returns how the real
 // operation is to be performed.
+//
+//go:norace
 func Block(kind OpKind, obj unsafe.Pointer, label string) Mode {
 	s := s_
 	if s == nil {
@@ -850,6 +903,8 @@ func Block(kind OpKind, obj unsafe.Pointer, label string) Mode {
 }
 
 // Atomic is a scheduling point for a non-blocking operation; loads are candidates for spin detection.
+//
+//go:norace
 func Atomic(obj unsafe.Pointer, write bool, label string) {
 	s := s_
 	if s == nil || s.off() {
@@ -859,6 +914,8 @@ func Atomic(obj unsafe.Pointer, write bool, label string) {
 }
 
 // Write records a non-blocking state change that is not a scheduling point (unlock, Done, ...).
+//
+//go:norace
 func Write(obj unsafe.Pointer, label string) Mode {
 	s := s_
 	if s == nil {
@@ -876,6 +933,8 @@ func Write(obj unsafe.Pointer, label string) Mode {
 }
 
 // CtxCancel records a context cancellation (it closes Done channels without a channel operation).
+//
+//go:norace
 func CtxCancel() {
 	s := s_
 	if s == nil || s.off() {
@@ -887,6 +946,8 @@ func CtxCancel() {
 
 // Mark records a harness-level event (call, return, commit) whose order relative to other marks the
 // oracles observe: marks conflict with each other, so that order is part of the state fingerprint.
+//
+//go:norace
 func Mark() {
 	s := s_
 	if s == nil || s.off() {
@@ -896,6 +957,8 @@ func Mark() {
 }
 
 // Yield is an explicit scheduling point (engine decorator, harness clients).
+//
+//go:norace
 func Yield(label string) {
 	s := s_
 	if s == nil || s.off() {
@@ -905,6 +968,8 @@ func Yield(label string) {
 }
 
 // Quiesce blocks the caller until no other thread can run (spinning threads count as blocked).
+//
+//go:norace
 func Quiesce() {
 	s := s_
 	if s == nil || s.off() {
@@ -914,6 +979,8 @@ func Quiesce() {
 }
 
 // Join waits for a thread started with Go.
+//
+//go:norace
 func Join(t *Thread) {
 	s := s_
 	if s == nil || s.off() || t == nil {
@@ -925,6 +992,8 @@ func Join(t *Thread) {
 }
 
 // BeginExplore opens the exploration window: scheduling decisions are recorded from here on.
+//
+//go:norace
 func BeginExplore() {
 	if s := s_; s != nil {
 		s.exploring = true
@@ -932,6 +1001,8 @@ func BeginExplore() {
 }
 
 // EndExplore closes the exploration window (decisions take the default again).
+//
+//go:norace
 func EndExplore() {
 	if s := s_; s != nil {
 		s.exploring = false
@@ -939,6 +1010,8 @@ func EndExplore() {
 }
 
 // Choose lets harness code take an explicit enumerated decision (0..n-1) inside the exploration.
+//
+//go:norace
 func Choose(n int) int {
 	s := s_
 	if s == nil || s.off() || n <= 1 {
@@ -948,6 +1021,8 @@ func Choose(n int) int {
 }
 
 // Epoch returns the number of state-changing operations so far.
+//
+//go:norace
 func Epoch() uint64 {
 	if s := s_; s != nil {
 		return s.epoch
@@ -956,6 +1031,8 @@ func Epoch() uint64 {
 }
 
 // CurName is the name of the running thread.
+//
+//go:norace
 func CurName() string {
 	if s := s_; s != nil && s.cur != nil {
 		return s.cur.Name
@@ -964,6 +1041,8 @@ func CurName() string {
 }
 
 // Steps returns the number of points executed so far.
+//
+//go:norace
 func Steps() int {
 	if s := s_; s != nil {
 		return s.steps
@@ -972,6 +1051,8 @@ func Steps() int {
 }
 
 // Note adds a line to the trace (no scheduling effect).
+//
+//go:norace
 func Note(format string, args ...interface{}) {
 	if s := s_; s != nil && s.trace && !s.teardown {
 		s.ops = append(s.ops, OpRec{s.cur.Name, "note", fmt.Sprintf(format, args...)})
@@ -979,10 +1060,14 @@ func Note(format string, args ...interface{}) {
 }
 
 // Sched reports whether a scheduler is installed (including while it is tearing down).
+//
+//go:norace
 func Sched() bool { return s_ != nil }
 
 // SetStepHook installs a function that runs (outside the schedule, in the running thread) after
 // every granted operation of the current execution.
+//
+//go:norace
 func SetStepHook(f func()) {
 	if s := s_; s != nil {
 		s.stepHook = f
